@@ -112,9 +112,11 @@ class Verifier:
             v.close()
             v = None
         if v is None:
-            mine = int(os.environ.get("PYTHONHASHSEED", "0") or 0)
-            hs = (derive(seed, "verifier") % 4294967290) + 1
-            if hs == mine:
+            # a pure function of this interpreter's own PYTHONHASHSEED (recorded in every case),
+            # so a replay under the recorded value talks to a verifier with the same hash seed
+            mine = os.environ.get("PYTHONHASHSEED", "0") or "0"
+            hs = (derive(mine, "verifier") % 4294967290) + 1
+            if str(hs) == mine:
                 hs += 1
             v = cls.inst = Verifier(hs)
         return v
